@@ -203,6 +203,7 @@ func cmdCheck(args []string) int {
 	writeHints := fs.Bool("write-hints", false, "update baseline/hints.json with the solver that decided each obligation")
 	writeBaseline := fs.Bool("write-baseline", false, "write baseline/<prop>.obligations (names of the obligations discharged now)")
 	fs.Parse(args)
+	currentProp = *prop
 	if *prop == "" {
 		fmt.Fprintln(os.Stderr, "need -prop")
 		return 2
